@@ -6,7 +6,7 @@ natural faults, directed boundary probes on both sides of each boundary family, 
 exact-capacity sweeps, the same requests as recipe steps."""
 from __future__ import annotations
 
-from .common import shard, run_cases, BASE_ASSUMPTIONS, repo_suite, repo_suite_job
+from .common import shard, run_cases, BASE_ASSUMPTIONS, repo_suite, repo_suite_job, under_density_configs
 
 ID = 'C03'
 LEVEL = 'exploration'
@@ -43,6 +43,9 @@ def required_buckets(tier):
 
 def plan(tier, seed):
     jobs = _plan(tier, seed)
+    # the same histories under the documented non-default densities (a fraction of the budget)
+    n_cfg = 24 if tier == 'quick' else 400
+    jobs = jobs + under_density_configs(shard('history', n_cfg, 2 if tier == 'quick' else 8))
     if tier != 'quick' or False:
         jobs = jobs + repo_suite_job()
     return jobs
